@@ -281,9 +281,9 @@ def _catalogue():
     add("D14", {"s": T([("any", [], ["a", "b"])]), "a": T([("ok", [], ["x"])]), "b": T([("ok", [], ["x"])]),
                 "x": T([("ok", [], ["c", "d"])]), "c": T([("ok", [], ["j"])]), "d": T([("ok", [], ["j"])]), "j": T(join="all")})
     # D13e both branches publish x as constants; branch a re-publishes the very value it inherited
-    add("D13e", {"s": T([("any", [("x", ("const", "v0"))], ["a", "b"])]), "a": T([("any", [("x", ("const", "v0"))], ["j"])]),
+    add("D13e", {"s": T([("any", [], ["a", "b"])]), "a": T([("any", [("x", ("const", "v0"))], ["j"])]),
                  "b": T([("any", [("x", ("const", "v1"))], ["j"])]), "j": T([("any", [], ["z"])], join="all"), "z": T()},
-        vars={"x": "init"}, output=["x"])
+        vars={"x": "v0"}, output=["x"])
     # D22b a dict-valued variable first published by a task, re-published as a dict by one of two branches forked later
     add("D22b", {"t0": T([("ok", [("cfg", ("const", {"region": "eu"}))], ["t1"])]), "t1": T([("ok", [], ["a1", "b1"])]),
                  "a1": T([("ok", [("cfg", ("const", {"zone": "z1"}))], ["a2"])]), "a2": T(),
